@@ -1,22 +1,25 @@
-(* Executable model of eliot.log_call (eliot/_action.py:908-962) and of what it
-   is compared with: Python's own argument binding.
+(* Executable model of eliot.log_call (eliot/_action.py, after commit cc84555) and
+   of what it is compared with: Python's own argument binding.
 
    Mirrors
-     CPython call semantics (function objects)  -> bind            (reference semantics of the UNDECORATED call)
-     boltons.funcutils.wraps (FunctionBuilder)  -> demote, forward (the generated outer function: same parameter
-                                                   list WITHOUT the '/' marker; it forwards its local variables to
-                                                   logging_wrapper with FunctionBuilder.get_invocation_str)
-     inspect.getcallargs                        -> bind (demote s) (it knows nothing of positional-only parameters;
-                                                   confirmed against CPython 3.12.1 on 200000 random signature/call pairs)
+     CPython call semantics (function objects)  -> bind      (reference semantics of the UNDECORATED call)
+     inspect.Signature.bind + apply_defaults    -> sigbind   (= bind, except that CPython 3.12's Signature._bind
+                                                   rejects a keyword naming a positional-only parameter that no
+                                                   positional argument filled, even when **kw would take it;
+                                                   confirmed on 150000 random signature/call pairs)
      log_call / logging_wrapper                 -> decorate_ok, wrapper
      _start_action_with_fields, Action._start   -> start_message
      Action.finish, add_success_fields          -> end_success, end_failed
+   and, kept for the record under "Legacy", the wrapper as it was before cc84555
+     boltons.funcutils.wraps (FunctionBuilder)  -> demote, forward
+     inspect.getcallargs                        -> bind (demote s)
+     -> wrapper_legacy
 
    A function is a signature, its module and qualified name, and a body: a
    function from the bound arguments to "returned v" or "raised e".
 
    Values are opaque identities (Z): the harness numbers the objects it passes.
-   Names are interned as positives (the first nine are fixed below).
+   Names are interned as positives (the first ten are fixed below).
    Definitions only; proofs are in Proofs/LogCallProofs.v. *)
 From Coq Require Import List PArith ZArith Bool String.
 Import ListNotations.
@@ -189,56 +192,17 @@ Definition bind (s : fsig) (c : fcall) : bres bindings :=
   else bind_params s s (c_pos c) (c_kw c).
 
 (* ------------------------------------------------------------------ *)
-(* The function produced by boltons.funcutils.wraps: FunctionBuilder.from_func
-   reads the parameters with inspect.getfullargspec, which merges
-   positional-only parameters into the ordinary ones, and get_sig_str writes
-   no '/'.  inspect.getcallargs is built on getfullargspec too. *)
+(* inspect.Signature.bind followed by apply_defaults: Python's rule, except that
+   Signature._bind (CPython 3.12) raises TypeError for every keyword whose name is
+   a positional-only parameter left unfilled by the positional arguments - also
+   when that parameter has a default and a **kw parameter would receive the keyword. *)
 
-Definition demote_param (p : param) : param :=
-  match p_kind p with
-  | KPosOnly => mkParam (p_name p) KNormal (p_default p)
-  | _ => p
-  end.
+Definition sigbind_quirk (s : fsig) (c : fcall) : bool :=
+  existsb (fun p => kind_eqb (p_kind p) KPosOnly && memb (p_name p) (keys (c_kw c)))
+          (skipn (List.length (c_pos c)) (filter (fun p => is_positional (p_kind p)) s)).
 
-Definition demote (s : fsig) : fsig := map demote_param s.
-
-(* FunctionBuilder.get_invocation_str: a parameter with a default is forwarded
-   as keyword unless it is positional-only or a *args exists; keyword-only
-   parameters as keywords; then *args and **kw. *)
-Definition fwd_by_keyword (va : bool) (p : param) : bool :=
-  match p_kind p with
-  | KNormal => has_default p && negb va
-  | KKwOnly => true
-  | _ => false
-  end.
-
-Fixpoint fwd_pos (va : bool) (ps : list param) (b : bindings) : list value :=
-  match ps, b with
-  | p :: ps', (_, bv) :: b' =>
-      (match p_kind p, bv with
-       | KPosOnly, BVal v => [v]
-       | KNormal, BVal v => if fwd_by_keyword va p then [] else [v]
-       | KVarArgs, BTuple vs => vs
-       | _, _ => []
-       end) ++ fwd_pos va ps' b'
-  | _, _ => []
-  end.
-
-Fixpoint fwd_kw (va : bool) (ps : list param) (b : bindings) : list (name * value) :=
-  match ps, b with
-  | p :: ps', (_, bv) :: b' =>
-      (match p_kind p, bv with
-       | KNormal, BVal v => if fwd_by_keyword va p then [(p_name p, v)] else []
-       | KKwOnly, BVal v => [(p_name p, v)]
-       | KVarKw, BDict kv => kv
-       | _, _ => []
-       end) ++ fwd_kw va ps' b'
-  | _, _ => []
-  end.
-
-Definition forward (s : fsig) (b : bindings) : fcall :=
-  let va := has_kind KVarArgs s in
-  mkCall (fwd_pos va s b) (fwd_kw va s b).
+Definition sigbind (s : fsig) (c : fcall) : bres bindings :=
+  if sigbind_quirk s c then TypeErr else bind s c.
 
 (* ------------------------------------------------------------------ *)
 (* Functions, outcomes, decorator options *)
@@ -359,10 +323,102 @@ Definition end_failed (t : string) (lvl : list positive) (r : raised) : message 
        (dset N_reason (FReason r) (dset N_exception (FExcName r) [])))).
 
 (* ------------------------------------------------------------------ *)
-(* The decorated function.  [parent] is the level the enclosing action hands
+(* The decorated function: functools.wraps(logging_wrapper), called with the
+   caller's own args/kwargs.  [parent] is the level the enclosing action hands
    to its next child (None: no current action, a new task is started). *)
 
 Definition wrapper (f : fn) (o : opts) (parent : option (list positive)) (c : fcall)
+  : outcome * list message :=
+  match sigbind (f_sig f) c with                      (* sig.bind( *args, **kwargs ); apply_defaults() *)
+  | TypeErr => (Raised RTypeError, [])                (* raised before any action is started *)
+  | Ok callargs =>
+      let fields := logged_args o callargs in         (* pop self; include_args *)
+      let t := action_type_of f o in
+      let lvl := match parent with Some l => l | None => [] end in
+      let start := start_message t lvl fields in
+      match call_fn f c with                          (* wrapped_function( *args, **kwargs ) *)
+      | Returned v =>
+          (Returned v,
+           [start; end_success t lvl (if o_include_result o then [(N_result, FResult v)] else [])])
+      | Raised r => (Raised r, [start; end_failed t lvl r])
+      end
+  end.
+
+(* the guard of the transparency theorems: the exact complement of the remaining
+   defect (Signature.bind rejects, Python accepts) *)
+Definition no_posonly_default_clash (s : fsig) (c : fcall) : Prop :=
+  sigbind_quirk s c = true -> bind s c = TypeErr.
+
+Definition included (o : opts) (k : name) : bool :=
+  match o_include_args o with
+  | None => true
+  | Some inc => memb k inc
+  end.
+
+Definition reserved (k : name) : bool :=
+  memb k [N_action_status; N_timestamp; N_task_uuid; N_action_type; N_task_level].
+
+(* ================================================================== *)
+(* Legacy: log_call before commit cc84555 (boltons' wraps + getcallargs).
+   Not the code in /repo any more; kept so that the three repaired defects
+   (F3b, F3c, F3e) stay machine-checked witnesses against this wrapper. *)
+
+(* ------------------------------------------------------------------ *)
+(* The function produced by boltons.funcutils.wraps: FunctionBuilder.from_func
+   reads the parameters with inspect.getfullargspec, which merges
+   positional-only parameters into the ordinary ones, and get_sig_str writes
+   no '/'.  inspect.getcallargs is built on getfullargspec too. *)
+
+Definition demote_param (p : param) : param :=
+  match p_kind p with
+  | KPosOnly => mkParam (p_name p) KNormal (p_default p)
+  | _ => p
+  end.
+
+Definition demote (s : fsig) : fsig := map demote_param s.
+
+(* FunctionBuilder.get_invocation_str: a parameter with a default is forwarded
+   as keyword unless it is positional-only or a *args exists; keyword-only
+   parameters as keywords; then *args and **kw. *)
+Definition fwd_by_keyword (va : bool) (p : param) : bool :=
+  match p_kind p with
+  | KNormal => has_default p && negb va
+  | KKwOnly => true
+  | _ => false
+  end.
+
+Fixpoint fwd_pos (va : bool) (ps : list param) (b : bindings) : list value :=
+  match ps, b with
+  | p :: ps', (_, bv) :: b' =>
+      (match p_kind p, bv with
+       | KPosOnly, BVal v => [v]
+       | KNormal, BVal v => if fwd_by_keyword va p then [] else [v]
+       | KVarArgs, BTuple vs => vs
+       | _, _ => []
+       end) ++ fwd_pos va ps' b'
+  | _, _ => []
+  end.
+
+Fixpoint fwd_kw (va : bool) (ps : list param) (b : bindings) : list (name * value) :=
+  match ps, b with
+  | p :: ps', (_, bv) :: b' =>
+      (match p_kind p, bv with
+       | KNormal, BVal v => if fwd_by_keyword va p then [(p_name p, v)] else []
+       | KKwOnly, BVal v => [(p_name p, v)]
+       | KVarKw, BDict kv => kv
+       | _, _ => []
+       end) ++ fwd_kw va ps' b'
+  | _, _ => []
+  end.
+
+Definition forward (s : fsig) (b : bindings) : fcall :=
+  let va := has_kind KVarArgs s in
+  mkCall (fwd_pos va s b) (fwd_kw va s b).
+
+(* ------------------------------------------------------------------ *)
+(* The decorated function as it was. *)
+
+Definition wrapper_legacy (f : fn) (o : opts) (parent : option (list positive)) (c : fcall)
   : outcome * list message :=
   let s := f_sig f in
   (* layer 1: the function generated by boltons' wraps binds the call ... *)
@@ -391,7 +447,7 @@ Definition wrapper (f : fn) (o : opts) (parent : option (list positive)) (c : fc
       end
   end.
 
-(* the guards of the transparency theorems *)
+(* the guards the legacy transparency theorem needed *)
 Definition no_posonly_kw (s : fsig) (c : fcall) : Prop :=
   forall k, In k (keys (c_kw c)) -> posonly_name s k = false.
 
@@ -401,11 +457,3 @@ Definition posonly_kw_clash (s : fsig) (c : fcall) : bool :=
 
 Definition no_param_named_call (s : fsig) : Prop := ~ In N_underscore_call (names s).
 
-Definition included (o : opts) (k : name) : bool :=
-  match o_include_args o with
-  | None => true
-  | Some inc => memb k inc
-  end.
-
-Definition reserved (k : name) : bool :=
-  memb k [N_action_status; N_timestamp; N_task_uuid; N_action_type; N_task_level].
